@@ -86,19 +86,28 @@ structure Cfg (k k' : Kcp) : Prop where
 theorem Cfg.trans {a b c : Kcp} (h1 : Cfg a b) (h2 : Cfg b c) : Cfg a c :=
   ⟨h2.mss.trans h1.mss, h2.stream.trans h1.stream⟩
 
+theorem shrinkBuf_cfg (k : Kcp) : Cfg k (shrinkBuf k) :=
+  ⟨(shrinkBuf_queue k).2.2.1, (shrinkBuf_queue k).2.2.2⟩
+
 theorem inSt1_cfg (regular : Bool) (st : InLoop) (hd : Hdr) : Cfg st.k (inSt1 regular st hd).k := by
-  unfold inSt1 shrinkBuf parseUna
+  unfold inSt1
   simp only []
-  repeat' split
-  all_goals exact ⟨rfl, rfl⟩
+  refine Cfg.trans ?_ (shrinkBuf_cfg _)
+  unfold parseUna
+  split <;> exact ⟨rfl, rfl⟩
+
+theorem parseAck_cfg (k : Kcp) (sn : U32) : Cfg k (parseAck k sn) := by
+  unfold parseAck; split <;> exact ⟨rfl, rfl⟩
+
+theorem parseFastack_cfg (k : Kcp) (sn ts : U32) : Cfg k (parseFastack k sn ts).1 := by
+  unfold parseFastack; split <;> exact ⟨rfl, rfl⟩
 
 theorem inSt2_cfg (st1 : InLoop) (hd : Hdr) (body : Bytes) : Cfg st1.k (inSt2 st1 hd body).k := by
   unfold inSt2
   simp only []
   split
-  · unfold parseFastack parseAck
-    repeat' split
-    all_goals exact ⟨rfl, rfl⟩
+  · exact ((parseAck_cfg st1.k hd.sn).trans (shrinkBuf_cfg _)).trans
+      (parseFastack_cfg (shrinkBuf (parseAck st1.k hd.sn)) hd.sn hd.ts)
   · split
     · split
       · split
